@@ -34,6 +34,8 @@ func runC18(p *Program, r *Report) {
 	ruleR185(p, r)
 	r.Rule("R18.6", "E3", 1, "histories with destroyed keys import: the 'no key data' rejection of copyKey does not apply to a key whose state is destroyed (sibling of R06.2)")
 	ruleR186(p, r)
+	r.Rule("R18.8", "E2+E4", 6, "the owner context of an exported/imported key file is the one the keystore encrypted it under: getContextFromFilename removes only the tested suffix from the end of the name (no first-occurrence search or split), and every site that builds a poison record key context - in the keystore and in the exporter - uses the whole key name")
+	ruleR188(p, r)
 	r.Rule("R18.7", "E4", 6, "migration covers every kind the v1 classifier produces: each keystore.Purpose* the default key-file classifier can assign has a case in ServerKeyStore.ImportKeyFileV1")
 	ruleR187(p, r)
 }
@@ -734,4 +736,82 @@ func edgeOnly(i *ssa.If, taken, other, blk *ssa.BasicBlock) bool {
 		return false
 	}
 	return true
+}
+
+func ruleR188(p *Program, r *Report) {
+	fn := p.Func("keystore/filesystem.getContextFromFilename")
+	if fn == nil || fn.Blocks == nil {
+		r.Anchor("R18.8", "getContextFromFilename")
+		return
+	}
+	name := fnName(fn)
+	firstOcc := map[string]bool{"Index": true, "IndexByte": true, "IndexAny": true, "IndexRune": true, "Split": true, "SplitN": true, "Cut": true, "Fields": true, "SplitAfter": true}
+	bad := ""
+	for _, cs := range callsIn(fn) {
+		if cs.Callee != nil && cs.Callee.Pkg() != nil && cs.Callee.Pkg().Path() == "strings" && firstOcc[cs.Callee.Name()] {
+			bad = "strings." + cs.Callee.Name()
+		}
+	}
+	r.Check(bad == "", "R18.8", name, "no first-occurrence cut of the file name", p.Pos(fn.Pos()), "suffix tests and suffix cuts only", "the client id is cut with "+bad+": a client id that contains the key-kind suffix in the middle is truncated and the key is re-encrypted under another owner's context")
+	// every string slice in the function is x[:len(x)-const]
+	okCuts, nCuts := true, 0
+	for _, b := range fn.Blocks {
+		for _, in := range b.Instrs {
+			sl, ok := in.(*ssa.Slice)
+			if !ok {
+				continue
+			}
+			if bt, isB := sl.X.Type().Underlying().(*types.Basic); !isB || bt.Info()&types.IsString == 0 {
+				continue
+			}
+			nCuts++
+			good := sl.Low == nil
+			if bo, isBo := sl.High.(*ssa.BinOp); good && isBo && bo.Op.String() == "-" {
+				op, isLen := isLenCall(bo.X)
+				_, isC := intConst(bo.Y)
+				good = isLen && op == sl.X && isC
+			} else {
+				good = false
+			}
+			if !good {
+				okCuts = false
+			}
+		}
+	}
+	r.Check(okCuts, "R18.8", name, "the name is only shortened at its end", p.Pos(fn.Pos()), itoa(nCuts)+" cuts of the form name[:len(name)-len(suffix)]", "the file name is cut somewhere else than at the tested suffix")
+	// poison contexts use the whole name, everywhere
+	ctor := p.FuncObj("keystore.NewKeyContext")
+	if ctor == nil {
+		r.Anchor("R18.8", "keystore.NewKeyContext")
+		return
+	}
+	n := 0
+	for _, f := range p.SrcFuncs("keystore/filesystem") {
+		for _, cs := range callsTo(f, ctor) {
+			pv, ok := cs.Instr.Common().Args[0].(*ssa.Const)
+			if !ok || pv.Value == nil {
+				continue
+			}
+			purpose := pv.Value.ExactString()
+			if !strings.Contains(purpose, "poison") {
+				continue
+			}
+			n++
+			sliced := false
+			for v := range backClosure(cs.Instr.Common().Args[1]) {
+				if _, isSl := v.(*ssa.Slice); isSl {
+					sliced = true
+				}
+			}
+			r.Check(!sliced, "R18.8", fnName(f), "poison key context "+purpose+" uses the whole key name", p.Pos(cs.Instr.Pos()), "context = []byte(name)", "this site builds the poison record key context from a shortened name while the other sites use the whole name: the key cannot be decrypted by the code that reads it")
+		}
+	}
+	if n < 5 {
+		r.Bad("R18.8", "keystore/filesystem", "poison key context sites", "-", "fewer poison key context constructions found than confirmed by reading")
+	}
+}
+
+func init() {
+	mut("C18", "poison symmetric key context loses its suffix (original defect)", "keystore/filesystem/filesystem_backup.go", "		return keystore.NewKeyContext(keystore.PurposePoisonRecordSymmetricKey, []byte(fname))", "		return keystore.NewKeyContext(keystore.PurposePoisonRecordSymmetricKey, []byte(fname[:len(fname)-len(\"_sym\")]))", "R18.8", "whole key name")
+	mut("C18", "client id cut at the first occurrence of the suffix", "keystore/filesystem/filesystem_backup.go", "[]byte(fname[:len(fname)-len(\"_hmac\")]))", "[]byte(fname[:strings.Index(fname, \"_hmac\")]))", "R18.8", "first-occurrence")
 }
